@@ -26,6 +26,9 @@ def check(ctx):
     # a validator must not see a call that is not enabled (calls in the alternative not taken never block, C07's last clause)
     core2.body_validate_arguments(ctx, "C07")
     core9.module_connector(ctx, "C07")
+    from . import core7
+
+    core7.selection_liveness(ctx, "C07")
 
 
 MUTANTS = [
